@@ -279,6 +279,73 @@ def extract_shell(repo):
     return facts, notes
 
 
+def extract_pty(repo):
+    """run_pty_task (pty.rs): the waiter itself turns the reader thread's chunks into delta frames, so "nothing
+    after the terminal frame" is program order - provided the loop runs until the reader's channel is closed,
+    every emit_output/drain_output call sits before the terminal emit, and nothing that can emit is spawned."""
+    facts = {"loop_until_exit_and_output_closed": False, "output_closed_only_on_channel_end": False,
+             "reader_thread_awaited_plainly": False, "all_output_emits_before_terminal": False,
+             "no_spawned_emitter": False}
+    notes = []
+    p = os.path.join(repo, "crates", "ripd", "src", "tasks", "pty.rs")
+    if not os.path.exists(p):
+        return facts, ["crates/ripd/src/tasks/pty.rs not found"]
+    src = sanitize(open(p).read())
+    m = re.search(r"async\s+fn\s+run_pty_task\s*\(", src)
+    if not m:
+        return facts, ["async fn run_pty_task not found"]
+    sig_end = match_close(src, m.end() - 1)
+    b0 = src.find("{", sig_end)
+    body = src[b0 + 1:match_close(src, b0) - 1]
+    dep = depths(body)
+    # the terminal emit
+    finals = []
+    for mm in re.finditer(r"emitter\s*\.\s*emit\s*\(\s*EventKind::ToolTaskStatus\s*\{", body):
+        fields = body[mm.end():match_close(body, mm.end() - 1) - 1]
+        if not re.search(r"\bstatus\s*:\s*ToolTaskStatus::\w+", fields) and re.search(r"\bstatus\b", fields):
+            finals.append(mm.start())
+    if len(finals) != 1 or dep[finals[0]] != 0:
+        return facts, [f"run_pty_task: terminal emit not found as one body-level statement ({finals})"]
+    final = finals[0]
+    # the loop
+    loops = [mm for mm in re.finditer(r"\bwhile\s+!\s*\(\s*exit_status\s*\.\s*is_some\s*\(\s*\)\s*&&\s*output_closed\s*\)\s*\{", body) if dep[mm.start()] == 0]
+    others = [mm for mm in re.finditer(r"\b(while|loop|for)\b", body)
+              if dep[mm.start()] == 0 and loops and loops[0].start() <= mm.start() < final]
+    if len(loops) == 1 and len(others) == 1 and loops[0].start() < final:
+        loop_end = match_close(body, loops[0].end() - 1)
+        lbody = body[loops[0].end():loop_end]
+        facts["loop_until_exit_and_output_closed"] = loop_end < final and not re.search(r"\bbreak\b|\breturn\b", lbody)
+        sets = [mm.start() for mm in re.finditer(r"\boutput_closed\s*=\s*true\b", body)]
+        arm = re.search(r"output_rx\s*\.\s*recv\s*\(\s*\)[^{]*=>\s*\{\s*match\s+(\w+)\s*\{", lbody)
+        ok_set = False
+        if len(sets) == 1 and arm:
+            ok_set = re.search(r"\bNone\s*=>\s*output_closed\s*=\s*true\b", lbody[arm.end():match_close(lbody, arm.end() - 1)]) is not None
+        facts["output_closed_only_on_channel_end"] = ok_set
+        # the reader thread's handle
+        hs = [mm.group(1) for mm in re.finditer(r"\blet\s+(?:mut\s+)?(\w+)\s*=\s*tokio::task::spawn_blocking\s*\(", body)
+              if dep[mm.start()] == 0 and "output_tx" in body[mm.end():match_close(body, mm.end() - 1)]]
+        if len(hs) == 1:
+            h = hs[0]
+            uses = [mm.start() for mm in re.finditer(r"\b" + re.escape(h) + r"\b", body)][1:]
+            facts["reader_thread_awaited_plainly"] = (len(uses) == 1 and dep[uses[0]] == 0 and loop_end < uses[0] < final
+                                                     and re.match(re.escape(h) + r"\s*\.\s*await\b", body[uses[0]:]) is not None)
+            notes.append(f"run_pty_task: reader thread handle `{h}`, {len(uses)} use(s)")
+        calls = [mm.start() for mm in re.finditer(r"\b(?:emit_output|drain_output|handle_control)\s*\(", body)]
+        facts["all_output_emits_before_terminal"] = bool(calls) and all(loops[0].end() < c < loop_end for c in calls)
+    else:
+        notes.append(f"run_pty_task: {len(loops)} `while !(exit_status.is_some() && output_closed)` loop(s), {len(others)} body-level loop(s)")
+    # nothing spawned may emit: the closures handed to spawn / spawn_blocking do not mention the emitter
+    bad = []
+    for mm in re.finditer(r"\b(?:tokio::spawn|spawn_blocking)\s*\(", body):
+        inner = body[mm.end():match_close(body, mm.end() - 1)]
+        if re.search(r"\bemitter\b|\bemit_output\b|\bdrain_output\b", inner):
+            bad.append(" ".join(inner.split())[:60])
+    facts["no_spawned_emitter"] = not bad
+    if bad:
+        notes.append(f"run_pty_task: spawned code mentions the emitter: {bad}")
+    return facts, notes
+
+
 def main():
     ap = argparse.ArgumentParser()
     ap.add_argument("--repo", required=True)
@@ -286,6 +353,7 @@ def main():
     a = ap.parse_args()
     ok, ops, notes = extract(a.repo)
     sfacts, snotes = extract_shell(a.repo)
+    pfacts, pnotes = extract_pty(a.repo)
     lines = [
         "(* GENERATED by tools/gen/pump_join.py from crates/ripd/src/tasks/pipes.rs (run_pipes_task) on every ./check run",
         "   -- do not edit.  A committed copy serves as seed only.  The waiter's steps in source order (C17, T1). *)",
@@ -314,11 +382,23 @@ def main():
     lines.append("Definition gen_shell_captures_joined : bool :=\n  " + " && ".join(f"gen_shell_{k}" for k in sfacts) + ".")
     lines.append("Lemma gen_shell_join_ok : gen_shell_captures_joined = true.")
     lines.append("Proof. vm_compute. reflexivity. Qed.")
+    lines.append("")
+    lines.append("(* the PTY task (pty.rs run_pty_task, not runnable in the sandbox): the waiter itself emits the delta frames;")
+    lines.append("   its loop runs until the process has been waited for AND the reader thread's channel is closed, every")
+    lines.append("   output emit sits inside that loop, the reader thread is awaited plainly before the terminal emit and no")
+    lines.append("   spawned code can emit - nothing can follow the terminal frame by program order *)")
+    for n in pnotes:
+        lines.append("(* " + n.replace("(*", "( *").replace("*)", "* )") + " *)")
+    for k, v in pfacts.items():
+        lines.append(f"Definition gen_pty_{k} : bool := {'true' if v else 'false'}.")
+    lines.append("Definition gen_pty_waiter_drains_before_terminal : bool :=\n  " + " && ".join(f"gen_pty_{k}" for k in pfacts) + ".")
+    lines.append("Lemma gen_pty_waiter_ok : gen_pty_waiter_drains_before_terminal = true.")
+    lines.append("Proof. vm_compute. reflexivity. Qed.")
     os.makedirs(a.out, exist_ok=True)
     open(os.path.join(a.out, "PumpJoin.v"), "w").write("\n".join(lines) + "\n")
-    for n in notes + snotes:
+    for n in notes + snotes + pnotes:
         print(n)
-    print("ok:", ok, "waiter:", ops, "shell:", sfacts)
+    print("ok:", ok, "waiter:", ops, "shell:", sfacts, "pty:", pfacts)
     return 0
 
 
